@@ -69,7 +69,12 @@ uint32_t VFN(putc)(uint32_t c, VF* f) { VF_PASS(__real_putc(c, f)); uint8_t b = 
 uint32_t VFN(fputc)(uint32_t c, VF* f) { VF_PASS(__real_fputc(c, f)); uint8_t b = (uint8_t)c; VFN(fwrite)(&b, 1, 1, f); return c & 0xff; }
 uint32_t VFN(feof)(VF* f) { return (uint32_t)vf_get(f)->eof; }
 uint32_t VFN(ferror)(VF* f) { return (uint32_t)vf_get(f)->err; }
+#if defined(VF_FTELL_SCRIPT) && !defined(REAL)
+uint64_t vf_ftell_script(void);          /* token-stream obligations write no bytes: file positions come from the harness (an arbitrary non-decreasing script) */
+uint64_t VFN(ftell)(VF* f) { (void)vf_get(f); return vf_ftell_script(); }
+#else
 uint64_t VFN(ftell)(VF* f) { return vf_get(f)->pos; }
+#endif
 uint32_t VFN(fseek)(VF* f, uint64_t off, uint32_t whence) { struct vf_handle* h = vf_get(f); int64_t o = (int64_t)off;
   if (whence == 0) h->pos = (uint64_t)o; else if (whence == 1) h->pos = (uint64_t)((int64_t)h->pos + o); else h->pos = (uint64_t)((int64_t)vf_files[h->file].len + o);
   h->eof = 0; return 0; }
